@@ -63,6 +63,7 @@ type Prog struct {
 	finalFa           map[string]bool     // fa function of a field declared final
 	mayLockCache      map[*ssa.Function]bool
 	paramAlias        map[*ssa.Function]map[string]string // contract's parameter name -> current name
+	MissingTargets    []*MissingTarget
 	FinalChecks       []*FinalCheck       // one per declared final field
 	ContractFilesUsed []string
 	MirrorUsed        []string
@@ -428,7 +429,10 @@ func (p *Prog) addSpecFile(sf *SpecFile) error {
 		case "func", "closure":
 			f := p.Funcs[sf.Pkg+"::"+c.Target]
 			if f == nil {
-				return fmt.Errorf("%s:%d: contract target %q not found in %s", c.File, c.Line, c.Target, sf.Pkg)
+				// renamed or removed since the contract was written: the properties that
+				// use this contract cannot be decided; the others are unaffected
+				p.MissingTargets = append(p.MissingTargets, &MissingTarget{Pkg: sf.Pkg, Target: c.Target, File: c.File, Line: c.Line, Tags: unionTags(c)})
+				continue
 			}
 			if prev, dup := p.Contracts[f]; dup {
 				// merge clauses (a function may be specified in several blocks)
@@ -809,4 +813,24 @@ func (p *Prog) writeParamBaseline(verifDir string) {
 	b, _ := json.MarshalIndent(rec, "", " ")
 	os.MkdirAll(filepath.Join(verifDir, "baseline"), 0o755)
 	os.WriteFile(filepath.Join(verifDir, "baseline", "params.json"), append(b, '\n'), 0o644)
+}
+
+// MissingTarget is a contract block whose function no longer exists under that name.
+type MissingTarget struct {
+	Pkg, Target, File string
+	Line              int
+	Tags              []string
+}
+
+func (p *Prog) desigNamesMissingTarget(desig string) *MissingTarget {
+	for _, m := range p.MissingTargets {
+		if desig == m.Target || strings.HasSuffix(desig, "."+m.Target) || strings.HasSuffix(desig, ")."+strings.TrimPrefix(m.Target, "(")) {
+			return m
+		}
+		// method targets are written "(*T).M"; designators may be "(*pkg.T).M"
+		if i := strings.LastIndex(m.Target, ")."); i >= 0 && strings.HasSuffix(desig, m.Target[i:]) && strings.Contains(desig, strings.Trim(m.Target[:i], "(*")) {
+			return m
+		}
+	}
+	return nil
 }
